@@ -44,4 +44,292 @@ theorem wf_aexitAfterChk {st st' : State} {t g : Nat} {ev : ExcVal} {o : Out} (h
       exact wf_aexitLoop (h1.1.enterScope h1.2 hen) he
   · exact wf_aexitFinish h he
 
+/-! ### `_spawn` -/
+
+/-- the pure part of `_spawn` after the handle scope `hs` has been allocated -/
+def spawnCore (st : State) (g gs hs : Nat) (sf : Option Nat) : State :=
+  let u := st.nTasks
+  let st := { st.setTask u (fun _ =>
+      { st := .created, hasState := true, scope := some gs, group := some g,
+        startFut := sf, hscope := some hs }) with nTasks := u + 1 }
+  let st := st.schedule (.step u)
+  let st := st.setScope gs (fun x => { x with tasks := u :: x.tasks })
+  st.setGroup g (fun x => { x with tasks := u :: x.tasks, spawned := u :: x.spawned })
+
+/-- the cancellation machinery at the end of `_spawn` -/
+def spawnTail (st : State) (gs : Nat) : State :=
+  if (st.scopes gs).cancelCalled then
+    if (st.scopes gs).deliver then st else deliver st gs
+  else if (st.scopes gs).shield then st
+  else restartInParent st gs
+
+theorem spawn_eq (st : State) (g : Nat) (sf : Option Nat) :
+    spawn st g sf =
+      (spawnTail (spawnCore (newScope st false none).1 g (st.groups g).scope
+        (newScope st false none).2 sf) (st.groups g).scope, (newScope st false none).1.nTasks) :=
+  rfl
+
+theorem frame_spawnTail (st : State) (gs : Nat) : Frame st (spawnTail st gs) := by
+  unfold spawnTail
+  split
+  · split
+    · exact Frame.refl _
+    · exact frame_deliver _ _
+  · split
+    · exact Frame.refl _
+    · exact frame_restartInParent _ _
+
+theorem wf_spawnCore {st : State} {g gs hs : Nat} (sf : Option Nat) (h : WF st)
+    (hg : g < st.nGroups) (hhs : hs < st.nScopes) (hgs : (st.scopes gs).entered = true) :
+    WF (spawnCore st g gs hs sf) := by
+  have hd := h.task_dflt st.nTasks (Nat.le_refl _)
+  have hnh : ∀ x, (st.scopes x).host ≠ some st.nTasks := by
+    intro x hx; have := h.host_lt hx; omega
+  have hf : Forest (spawnCore st g gs hs sf).scopes (spawnCore st g gs hs sf).tasks := by
+    have eS : (spawnCore st g gs hs sf).scopes =
+        upd st.scopes gs ((spawnCore st g gs hs sf).scopes gs) := by
+      apply eq_upd_of_agree; intro x hx; simp [spawnCore, hx]
+    have eT : (spawnCore st g gs hs sf).tasks =
+        upd st.tasks st.nTasks ((spawnCore st g gs hs sf).tasks st.nTasks) := by
+      apply eq_upd_of_agree; intro x hx; simp [spawnCore, hx]
+    rw [eS, eT]
+    apply h.forest.spawn hd.2.1 hd.2.2.1 hnh hgs <;> simp [spawnCore]
+  have ok : ∀ x, HandleOk st x → HandleOk (spawnCore st g gs hs sf) x :=
+    fun x hx => hx.mono (by simp [spawnCore]) (by simp [spawnCore]) (by simp [spawnCore])
+  have tko : ∀ t, t ≠ st.nTasks → (spawnCore st g gs hs sf).tasks t = st.tasks t := by
+    intro t ht; simp [spawnCore, ht]
+  have tkn : (spawnCore st g gs hs sf).tasks st.nTasks =
+      { st := .created, hasState := true, scope := some gs, group := some g,
+        startFut := sf, hscope := some hs } := by simp [spawnCore]
+  have nT : (spawnCore st g gs hs sf).nTasks = st.nTasks + 1 := by simp [spawnCore]
+  have nS : (spawnCore st g gs hs sf).nScopes = st.nScopes := by simp [spawnCore]
+  have nF : (spawnCore st g gs hs sf).nFuts = st.nFuts := by simp [spawnCore]
+  have nG : (spawnCore st g gs hs sf).nGroups = st.nGroups := by simp [spawnCore]
+  have sx : ∀ x, ((spawnCore st g gs hs sf).scopes x).exists_ = (st.scopes x).exists_ ∧
+      ((spawnCore st g gs hs sf).scopes x).deadline = (st.scopes x).deadline := by
+    intro x; by_cases hx : x = gs
+    · subst hx; simp [spawnCore]
+    · simp [spawnCore, hx]
+  have gro : ∀ g', g' ≠ g → (spawnCore st g gs hs sf).groups g' = st.groups g' := by
+    intro g' hg'; simp [spawnCore, hg']
+  have grn : ((spawnCore st g gs hs sf).groups g).scope = (st.groups g).scope ∧
+      ((spawnCore st g gs hs sf).groups g).tasks = st.nTasks :: (st.groups g).tasks ∧
+      ((spawnCore st g gs hs sf).groups g).spawned = st.nTasks :: (st.groups g).spawned := by
+    simp [spawnCore]
+  constructor
+  · intro t ht; rw [nT] at ht
+    rw [tko t (by omega)]; exact h.task_dflt t (by omega)
+  · intro x; rw [(sx x).1, nS]; exact h.scope_exists x
+  · intro x; rw [(sx x).1, (sx x).2]; exact h.deadline_exists x
+  · intro g' hg'; rw [nG] at hg'
+    rw [gro g' (by omega)]; exact h.group_dflt g' hg'
+  · intro x hx
+    have : x ∈ st.ready ∨ x = .step st.nTasks := by simpa [spawnCore] using hx
+    rcases this with hx | rfl
+    · exact ok x (h.ready_ok x hx)
+    · simp [HandleOk, nT]
+  · intro x hx
+    have : x ∈ st.cur := by simpa [spawnCore] using hx
+    exact ok x (h.cur_ok x this)
+  · intro x hx
+    have : x ∈ st.timers := by simpa [spawnCore] using hx
+    exact ok _ (h.timers_ok x this)
+  · intro f t hf
+    have : st.futWaiter f = some t := by simpa [spawnCore] using hf
+    have := h.futWaiter_lt f t this
+    rw [nF, nT]; omega
+  · intro t s hs'
+    rw [nS]
+    by_cases ht : t = st.nTasks
+    · subst ht; rw [tkn] at hs'; simp at hs'; omega
+    · rw [tko t ht] at hs'; exact h.hscope_lt t s hs'
+  · intro g' hg'; rw [nG] at hg'; rw [nS]
+    by_cases hgg : g' = g
+    · subst hgg; rw [grn.1]; exact h.group_scope_lt g' hg'
+    · rw [gro g' hgg]; exact h.group_scope_lt g' hg'
+  · intro g' t ht; rw [nT]
+    by_cases hgg : g' = g
+    · subst hgg; rw [grn.2.1, grn.2.2] at ht
+      simp only [List.mem_cons] at ht
+      rcases ht with (rfl | ht) | (rfl | ht)
+      · omega
+      · have := h.group_tasks_lt g' t (.inl ht); omega
+      · omega
+      · have := h.group_tasks_lt g' t (.inr ht); omega
+    · rw [gro g' hgg] at ht; have := h.group_tasks_lt g' t ht; omega
+  · intro t g' hg'; rw [nG]
+    by_cases ht : t = st.nTasks
+    · subst ht; rw [tkn] at hg'; simp at hg'; omega
+    · rw [tko t ht] at hg'; exact h.task_group_lt t g' hg'
+  · exact hf.not_entered
+  · exact hf.entered_exists
+  · exact hf.active_entered
+  · exact hf.child_spec
+  · exact hf.child_conv
+  · exact hf.chain_spec
+  · exact hf.chain_entered
+  · exact hf.chain_nodup
+  · exact hf.parent_entered
+  · exact hf.task_scope
+  · exact hf.tasks_mem
+  · exact hf.tasks_nodup
+  · exact hf.children_nodup
+  · exact hf.host_active
+  · exact hf.host_scope
+  · exact hf.host_started
+  · intro t
+    have hr : (spawnCore st g gs hs sf).running = st.running := by simp [spawnCore]
+    rw [hr]
+    by_cases ht : t = st.nTasks
+    · subst ht; rw [tkn]; simp
+      intro hr'; have := h.running_lt hr'; omega
+    · rw [tko t ht]; exact h.running_spec t
+  · intro t
+    by_cases ht : t = st.nTasks
+    · subst ht; rw [tkn]; simp
+    · rw [tko t ht]; exact h.outcome_done t
+
+theorem spawnCore_running (st : State) (g gs hs : Nat) (sf : Option Nat) :
+    (spawnCore st g gs hs sf).running = st.running := by simp [spawnCore]
+
+theorem wf_spawn {st : State} {g : Nat} (sf : Option Nat) (h : WF st) (hg : g < st.nGroups)
+    (ha : (st.scopes (st.groups g).scope).active = true) :
+    WF (spawn st g sf).1 ∧ (spawn st g sf).1.running = st.running ∧
+      (spawn st g sf).1.nFuts = st.nFuts := by
+  rw [spawn_eq]
+  have h1 := wf_newScope h false none
+  have hgs : (st.groups g).scope < st.nScopes := h.group_scope_lt g hg
+  have hen : ((newScope st false none).1.scopes (st.groups g).scope).entered = true := by
+    have : (st.groups g).scope ≠ st.nScopes := by omega
+    simp [newScope, this]; exact h.active_entered _ ha
+  have h2 := wf_spawnCore (g := g) (gs := (st.groups g).scope) (hs := (newScope st false none).2)
+    sf h1 (by simpa [newScope] using hg) (by simp [newScope]) hen
+  have fr := frame_spawnTail (spawnCore (newScope st false none).1 g (st.groups g).scope
+        (newScope st false none).2 sf) (st.groups g).scope
+  refine ⟨wf_frame h2 fr, ?_, ?_⟩
+  · simp only []; rw [fr.running, spawnCore_running]; rfl
+  · simp only []; rw [fr.nFuts]; simp [spawnCore, newScope]
+
+/-! ### `task_done` -/
+
+theorem wf_taskDoneCore {st : State} {u g sc : Nat} (h : WF st)
+    (hs : (st.tasks u).scope = some sc) (hd : (st.tasks u).st = .done) :
+    WF (((st.setScope sc (fun x => { x with tasks := x.tasks.erase u })).setGroup g
+      (fun x => { x with tasks := x.tasks.erase u })).setTask u
+      (fun x => { x with hasState := false, scope := none, doneCbRun := true })) := by
+  have hlt : u < st.nTasks := by
+    apply Classical.byContradiction; intro hlt
+    have := h.task_dflt u (by omega); simp_all
+  let A := (st.setScope sc (fun x => { x with tasks := x.tasks.erase u })).setTask u
+      (fun x => { x with hasState := false, scope := none, doneCbRun := true })
+  have hA : WF A := by
+    have hf : Forest A.scopes A.tasks := by
+      have eS : A.scopes = upd st.scopes sc (A.scopes sc) := by
+        apply eq_upd_of_agree; intro x hx; simp [A, hx]
+      have eT : A.tasks = upd st.tasks u (A.tasks u) := by
+        apply eq_upd_of_agree; intro x hx; simp [A, hx]
+      rw [eS, eT]
+      apply h.forest.taskDone hs hd <;> simp [A]
+    refine h.of_forest rfl rfl rfl rfl rfl rfl rfl (fun _ h => h) (fun _ h => h) (fun _ h => h)
+      (fun t => ?_) (fun t ht => ?_) (fun x => ?_) hf
+    · by_cases ht : t = u
+      · subst ht; simp [A]
+      · simp [A, ht]
+    · have : t ≠ u := by omega
+      simp [A, this]
+    · by_cases hx : x = sc
+      · subst hx; simp [A]
+      · simp [A, hx]
+  have := wf_setGroup_inert hA g (fun x => { x with tasks := x.tasks.erase u })
+    (fun x => ⟨rfl, fun t ht => List.mem_of_mem_erase ht, fun _ h => h⟩)
+  exact this
+
+/-- literal copy of the end of `runTaskDone` -/
+def taskDoneTail (st : State) (g u : Nat) (o : Outcome) (sfo : Option Nat) : Option State :=
+  let gs := (st.groups g).scope
+  match o with
+  | .none =>
+    match sfo with
+    | some sf =>
+      if (st.futs sf).done then some st
+      else some (resolveFut st sf (.failed (.one .runtimeError)))
+    | none => some st
+  | e =>
+    match sfo with
+    | some sf =>
+      if (st.futs sf) matches .cancelled _ ∧ e.isCancelledError then some st
+      else if (st.futs sf).done then
+        let st := if e.isCancelledError then st else
+          st.setGroup g (fun x =>
+            { x with exceptions := x.exceptions ++ e.leaves, routed := u :: x.routed })
+        some (if effCancelled st gs then st else cancelScope st gs false)
+      else some (resolveFut st sf (.failed e))
+    | none =>
+      let st := if e.isCancelledError then st else
+        st.setGroup g (fun x =>
+          { x with exceptions := x.exceptions ++ e.leaves, routed := u :: x.routed })
+      some (if effCancelled st gs then st else cancelScope st gs false)
+
+def taskDoneMid (st : State) (g : Nat) : State :=
+  match (st.groups g).onCompleted with
+  | some f => if (st.groups g).tasks = [] then resolveFut st f .result else st
+  | none => st
+
+theorem runTaskDone_eq (st : State) (u : Nat) :
+    runTaskDone st u =
+      match (st.tasks u).group, (st.tasks u).scope, (st.tasks u).outcome with
+      | some g, some sc, some o =>
+        taskDoneTail (taskDoneMid
+          (((st.setScope sc (fun x => { x with tasks := x.tasks.erase u })).setGroup g
+            (fun x => { x with tasks := x.tasks.erase u })).setTask u
+            (fun x => { x with hasState := false, scope := none, doneCbRun := true })) g)
+          g u o (st.tasks u).startFut
+      | _, _, _ => none := rfl
+
+theorem wf_taskDoneTail {st st' : State} {g u : Nat} {o : Outcome} {sfo : Option Nat} (h : WF st)
+    (he : taskDoneTail st g u o sfo = some st') : WF st' ∧ st'.running = st.running := by
+  have hr : ∀ (f : Nat) (v : FutSt), WF (resolveFut st f v) ∧
+      (resolveFut st f v).running = st.running :=
+    fun f v => ⟨wf_frame h (frame_resolveFut _ _ _), (frame_resolveFut _ _ _).running⟩
+  unfold taskDoneTail at he
+  simp only [] at he
+  repeat' (split at he)
+  all_goals
+    simp only [Option.some.injEq] at he
+    subst he
+    first
+    | exact ⟨h, rfl⟩
+    | exact hr _ _
+    | exact ⟨wf_setGroup_inert h g _ (fun x => by simp), rfl⟩
+    | exact ⟨wf_cframe h (cframe_cancelScope _ _ _), (cframe_cancelScope _ _ _).running⟩
+    | exact ⟨wf_cframe (wf_setGroup_inert h g _ (fun x => by simp)) (cframe_cancelScope _ _ _),
+        (cframe_cancelScope _ _ _).running⟩
+
+theorem wf_runTaskDone {st st' : State} {u : Nat} (h : WF st)
+    (he : runTaskDone st u = some st') : WF st' ∧ st'.running = st.running := by
+  rw [runTaskDone_eq] at he
+  split at he
+  · rename_i g sc o hg hsc ho
+    have hd := h.outcome_done u (by simp [ho])
+    have h1 := wf_taskDoneCore (g := g) h hsc hd
+    have h2 : WF (taskDoneMid
+          (((st.setScope sc (fun x => { x with tasks := x.tasks.erase u })).setGroup g
+            (fun x => { x with tasks := x.tasks.erase u })).setTask u
+            (fun x => { x with hasState := false, scope := none, doneCbRun := true })) g) ∧
+        (taskDoneMid
+          (((st.setScope sc (fun x => { x with tasks := x.tasks.erase u })).setGroup g
+            (fun x => { x with tasks := x.tasks.erase u })).setTask u
+            (fun x => { x with hasState := false, scope := none, doneCbRun := true })) g).running
+          = st.running := by
+      unfold taskDoneMid
+      split
+      · split
+        · exact ⟨wf_frame h1 (frame_resolveFut _ _ _), by rw [(frame_resolveFut _ _ _).running]; rfl⟩
+        · exact ⟨h1, rfl⟩
+      · exact ⟨h1, rfl⟩
+    have h3 := wf_taskDoneTail h2.1 he
+    exact ⟨h3.1, by rw [h3.2, h2.2]⟩
+  · contradiction
+
+
 end AnyioModel.Kernel
